@@ -10,6 +10,10 @@ use std::path::Path;
 use std::sync::Arc;
 
 use crate::fs::FileSystem;
+
+/// The unlock trait behind [`crate::fs::FileLock`], which an external [`FileSystem`]
+/// implementation (the simulated filesystem of the harness) needs in order to build a lock handle.
+pub use crate::fs::UnlockableFile;
 use crate::logs::{LogReader, LogWriter};
 
 /// Open a log writer on `path` (append mode or truncating) and append `records` in order.
